@@ -234,7 +234,9 @@ pub fn parse_rejected(cmd: &Cmd) -> bool {
     }
 }
 
-#[derive(Debug, PartialEq, Default)]
+/// What the `Debug` text of a parsed command shows: the variant (first identifier), every later
+/// identifier (type, field and register names), the numbers and the quoted strings, in order.
+#[derive(Debug, PartialEq, Default, Clone)]
 struct Atoms {
     variant: String,
     idents: Vec<String>,
@@ -246,10 +248,6 @@ fn debug_atoms(text: &str) -> Atoms {
     let mut atoms = Atoms::default();
     let chars: Vec<char> = text.chars().collect();
     let mut i = 0;
-    let interesting = |s: &str| {
-        matches!(s, "Address" | "PCOffset" | "Label" | "Register" | "Memory")
-            || (s.len() == 2 && s.starts_with('R') && s.as_bytes()[1].is_ascii_digit())
-    };
     while i < chars.len() {
         let c = chars[i];
         if c == '"' {
@@ -278,7 +276,7 @@ fn debug_atoms(text: &str) -> Atoms {
             }
             if atoms.variant.is_empty() {
                 atoms.variant = s;
-            } else if interesting(&s) {
+            } else {
                 atoms.idents.push(s);
             }
         } else if c.is_ascii_digit() || (c == '-' && i + 1 < chars.len() && chars[i + 1].is_ascii_digit()) {
@@ -299,82 +297,273 @@ fn debug_atoms(text: &str) -> Atoms {
     atoms
 }
 
-fn expected_atoms(cmd: &Cmd) -> Atoms {
-    let mut a = Atoms::default();
-    fn loc(a: &mut Atoms, l: &Loc) {
-        match l {
-            Loc::Abs(v) => {
-                a.idents.push("Address".into());
-                a.numbers.push(*v);
-            }
-            Loc::Label { name, off } => {
-                a.idents.push("Label".into());
-                a.idents.push("Label".into());
-                a.strings.push(name.clone());
-                a.numbers.push(*off);
-            }
-            Loc::Pc(off) => {
-                a.idents.push("PCOffset".into());
-                a.numbers.push(*off);
-            }
-        }
-    }
-    fn target(a: &mut Atoms, t: &Target, wrapped: bool) {
-        match t {
-            Target::Reg(r) => {
-                a.idents.push("Register".into());
-                a.idents.push(format!("R{}", r));
-            }
-            Target::Mem(l) => {
-                if wrapped {
-                    a.idents.push("Memory".into());
-                }
-                loc(a, l);
-            }
-        }
-    }
-    a.variant = match cmd {
-        Cmd::Step => "StepOver",
-        Cmd::StepInto(_) => "StepInto",
-        Cmd::StepOut => "StepOut",
-        Cmd::Continue => "Continue",
-        Cmd::BreakAdd(_) => "BreakAdd",
-        Cmd::BreakRemove(_) => "BreakRemove",
-        Cmd::BreakList => "BreakList",
-        Cmd::Print(_) => "Print",
-        Cmd::Registers => "Registers",
-        Cmd::Assembly(_) => "Assembly",
-        Cmd::Echo(_) => "Echo",
-        Cmd::Help => "Help",
-        Cmd::Move(..) => "Move",
-        Cmd::Goto(_) => "Goto",
-        Cmd::Eval(_) => "Eval",
-        Cmd::Reset => "Reset",
-        Cmd::Quit => "Quit",
-        Cmd::Exit => "Exit",
-        Cmd::Garbage(_) | Cmd::Sudo => "",
-    }
-    .to_string();
+/// Kind and argument shape of a command: the unit for which the rendering is learned.
+fn shape_key(cmd: &Cmd) -> String {
+    let loc = |l: &Loc| match l {
+        Loc::Abs(_) => "abs",
+        Loc::Pc(_) => "pc",
+        Loc::Label { .. } => "label",
+    };
+    let target = |t: &Target| match t {
+        Target::Reg(_) => "reg",
+        Target::Mem(l) => loc(l),
+    };
     match cmd {
-        Cmd::StepInto(c) => a.numbers.push((c.unwrap_or(1) as u16).max(1) as i64),
-        Cmd::BreakAdd(l) | Cmd::BreakRemove(l) | Cmd::Goto(l) => loc(&mut a, l),
-        Cmd::Assembly(l) => match l {
-            Some(l) => loc(&mut a, l),
-            None => {
-                a.idents.push("PCOffset".into());
-                a.numbers.push(0);
-            }
-        },
-        Cmd::Print(t) => target(&mut a, t, true),
-        Cmd::Move(t, v) => {
-            target(&mut a, t, true);
-            a.numbers.push((*v as u16) as i64);
+        Cmd::StepInto(c) => format!("step_into:{}", if c.is_some() { "count" } else { "none" }),
+        Cmd::BreakAdd(l) | Cmd::BreakRemove(l) | Cmd::Goto(l) => format!("{}:{}", cmd.kind_name(), loc(l)),
+        Cmd::Assembly(l) => format!("assembly:{}", l.as_ref().map(loc).unwrap_or("none")),
+        Cmd::Print(t) => format!("print:{}", target(t)),
+        Cmd::Move(t, _) => format!("move:{}", target(t)),
+        other => other.kind_name().to_string(),
+    }
+}
+
+/// The argument values of a command as the parser must have understood them:
+/// (register, numbers, strings), in the harness's own order.
+fn argument_values(cmd: &Cmd) -> (Option<u8>, Vec<i64>, Vec<String>) {
+    let mut reg = None;
+    let mut numbers = Vec::new();
+    let mut strings = Vec::new();
+    let mut loc = |l: &Loc, numbers: &mut Vec<i64>, strings: &mut Vec<String>| match l {
+        Loc::Abs(v) => numbers.push(*v),
+        Loc::Label { name, off } => {
+            strings.push(name.clone());
+            numbers.push(*off);
         }
-        Cmd::Echo(s) => a.strings.push(s.trim().to_string()),
-        Cmd::Eval(e) => a.strings.push(e.text.trim().to_string()),
+        Loc::Pc(off) => numbers.push(*off),
+    };
+    match cmd {
+        Cmd::StepInto(Some(c)) => numbers.push((*c as u16).max(1) as i64),
+        Cmd::BreakAdd(l) | Cmd::BreakRemove(l) | Cmd::Goto(l) | Cmd::Assembly(Some(l)) => loc(l, &mut numbers, &mut strings),
+        Cmd::Print(Target::Reg(r)) => reg = Some(*r),
+        Cmd::Print(Target::Mem(l)) => loc(l, &mut numbers, &mut strings),
+        Cmd::Move(t, v) => {
+            match t {
+                Target::Reg(r) => reg = Some(*r),
+                Target::Mem(l) => loc(l, &mut numbers, &mut strings),
+            }
+            numbers.push((*v as u16) as i64);
+        }
+        Cmd::Echo(s) => strings.push(s.trim().to_string()),
+        Cmd::Eval(e) => strings.push(e.text.trim().to_string()),
         _ => {}
     }
-    a
+    (reg, numbers, strings)
+}
+
+#[derive(Clone, Debug)]
+enum Slot<T> {
+    /// Always this value, whatever the arguments.
+    Const(T),
+    /// The k-th argument value.
+    Arg(usize),
+}
+
+/// How the current tree renders one command shape (learned, so that renaming a type, a variant
+/// or a field, or reordering fields, is not mistaken for a parsing error).
+#[derive(Clone, Debug)]
+struct Template {
+    variant: String,
+    idents: Vec<String>,
+    /// Position in `idents` of the register name, and the text around its digit.
+    reg_slot: Option<(usize, String, String)>,
+    numbers: Vec<Slot<i64>>,
+    strings: Vec<Slot<String>>,
+}
+
+/// The calibration script: every command shape once, in its plainest documented spelling, with
+/// argument values that cannot be confused with each other.
+fn calibration_script() -> Vec<(String, Cmd)> {
+    let label = || "Cal_lbl".to_string();
+    let l_abs = Loc::Abs(0x3123);
+    let l_pc = Loc::Pc(6);
+    let l_label = Loc::Label { name: label(), off: 6 };
+    let mut out: Vec<(String, Cmd)> = vec![
+        ("step".into(), Cmd::Step),
+        ("step into 7".into(), Cmd::StepInto(Some(7))),
+        ("step into".into(), Cmd::StepInto(None)),
+        ("step out".into(), Cmd::StepOut),
+        ("continue".into(), Cmd::Continue),
+        ("break list".into(), Cmd::BreakList),
+        ("registers".into(), Cmd::Registers),
+        ("help".into(), Cmd::Help),
+        ("echo calibration text".into(), Cmd::Echo("calibration text".into())),
+        ("print r3".into(), Cmd::Print(Target::Reg(3))),
+        ("print r5".into(), Cmd::Print(Target::Reg(5))),
+        ("move r3 x1234".into(), Cmd::Move(Target::Reg(3), 0x1234)),
+        ("move r5 x1234".into(), Cmd::Move(Target::Reg(5), 0x1234)),
+        ("assembly".into(), Cmd::Assembly(None)),
+        (
+            "eval add r1, r1, #1".into(),
+            Cmd::Eval(crate::script::EvalInstr {
+                text: "add r1, r1, #1".into(),
+                kind: EvalKind::Word(0x1261),
+            }),
+        ),
+    ];
+    for (text, l) in [("x3123", &l_abs), ("^6", &l_pc), ("Cal_lbl+6", &l_label)] {
+        out.push((format!("break add {}", text), Cmd::BreakAdd(l.clone())));
+        out.push((format!("break remove {}", text), Cmd::BreakRemove(l.clone())));
+        out.push((format!("print {}", text), Cmd::Print(Target::Mem(l.clone()))));
+        out.push((format!("assembly {}", text), Cmd::Assembly(Some(l.clone()))));
+        out.push((format!("move {} x1234", text), Cmd::Move(Target::Mem(l.clone()), 0x1234)));
+        out.push((format!("goto {}", text), Cmd::Goto(l.clone())));
+    }
+    out.push(("reset".into(), Cmd::Reset));
+    out
+}
+
+fn learn(cmd: &Cmd, text: &str) -> Template {
+    let atoms = debug_atoms(text);
+    let (_, numbers, strings) = argument_values(cmd);
+    Template {
+        variant: atoms.variant.clone(),
+        idents: atoms.idents.clone(),
+        reg_slot: None,
+        numbers: atoms
+            .numbers
+            .iter()
+            .map(|n| match numbers.iter().position(|a| a == n) {
+                Some(k) => Slot::Arg(k),
+                None => Slot::Const(*n),
+            })
+            .collect(),
+        strings: atoms
+            .strings
+            .iter()
+            .map(|s| match strings.iter().position(|a| a == s) {
+                Some(k) => Slot::Arg(k),
+                None => Slot::Const(s.clone()),
+            })
+            .collect(),
+    }
+}
+
+/// Learned once per process from a calibration session on the current tree. `None`: the
+/// calibration did not go as expected; the rendering is then not judged at all (the effect of
+/// every command still is).
+fn vocabulary(cap: &Capture) -> &'static Option<std::collections::HashMap<String, Template>> {
+    static VOCAB: std::sync::OnceLock<Option<std::collections::HashMap<String, Template>>> = std::sync::OnceLock::new();
+    VOCAB.get_or_init(|| {
+        let script = calibration_script();
+        let mut learned: std::collections::HashMap<String, Template> = std::collections::HashMap::new();
+        // Two sessions: one ends with quit, one with exit
+        for end in [("quit", Cmd::Quit), ("exit", Cmd::Exit)] {
+            let mut lines: Vec<(String, Cmd)> = if end.0 == "quit" { script.clone() } else { Vec::new() };
+            lines.push((end.0.to_string(), end.1.clone()));
+            let session = Session {
+                image: Image::Source("Cal_lbl halt\n".to_string()),
+                stack: false,
+                minimal: true,
+                debug: Some(DebugCfg {
+                    arg: Some(lines.iter().map(|l| l.0.clone()).collect::<Vec<_>>().join("\n")),
+                    terminal: None,
+                }),
+                stdin: Vec::new(),
+                tty_input: None,
+                fuel: 100_000,
+                max_idle: 64,
+                max_commands: 4 * lines.len() as u64 + 8,
+                log_exec: false,
+            };
+            let outcome = run_session(cap, &session);
+            let texts: Vec<&String> = outcome
+                .events
+                .iter()
+                .filter_map(|e| match e {
+                    Event::Cmd(t) => Some(t),
+                    _ => None,
+                })
+                .collect();
+            let rejected = outcome.events.iter().any(|e| matches!(e, Event::CmdError(_)));
+            if rejected || texts.len() < lines.len() {
+                return None;
+            }
+            for ((_, cmd), text) in lines.iter().zip(texts.iter()) {
+                let key = shape_key(cmd);
+                let template = learn(cmd, text);
+                match learned.get_mut(&key) {
+                    None => {
+                        learned.insert(key, template);
+                    }
+                    Some(first) => {
+                        // The same shape with another register: the one identifier that differs
+                        // is the register's name
+                        let differing: Vec<usize> = (0..first.idents.len().min(template.idents.len()))
+                            .filter(|i| first.idents[*i] != template.idents[*i])
+                            .collect();
+                        if first.idents.len() == template.idents.len() && differing.len() == 1 {
+                            let (a, b) = (&first.idents[differing[0]], &template.idents[differing[0]]);
+                            if let (Some(pa), Some(pb)) = (a.find('3'), b.find('5')) {
+                                if pa == pb && a[..pa] == b[..pb] && a[pa + 1..] == b[pb + 1..] {
+                                    first.reg_slot = Some((differing[0], a[..pa].to_string(), a[pa + 1..].to_string()));
+                                }
+                            }
+                        }
+                    }
+                }
+            }
+        }
+        // Distinct commands must not render alike
+        let mut seen = std::collections::HashSet::new();
+        for (key, t) in &learned {
+            let kind = key.split(':').next().unwrap_or("");
+            if !seen.insert((t.variant.clone(), kind.to_string())) {
+                continue;
+            }
+        }
+        let variants: std::collections::HashMap<&str, &str> = learned.iter().map(|(k, t)| (k.split(':').next().unwrap_or(""), t.variant.as_str())).collect();
+        let distinct: std::collections::HashSet<&&str> = variants.values().collect();
+        if distinct.len() != variants.len() {
+            return None;
+        }
+        Some(learned)
+    })
+}
+
+/// Does the rendering of the parsed command agree with what was typed? `Err`: what differs.
+fn rendering_agrees(template: &Template, cmd: &Cmd, text: &str) -> Result<(), String> {
+    let got = debug_atoms(text);
+    let (reg, numbers, strings) = argument_values(cmd);
+    if got.variant != template.variant {
+        return Err(format!("command {} where {} is expected", got.variant, template.variant));
+    }
+    let mut want_idents = template.idents.clone();
+    match (&template.reg_slot, reg) {
+        (Some((at, pre, suf)), Some(r)) => want_idents[*at] = format!("{}{}{}", pre, r, suf),
+        // A register whose rendering was not understood: names are not judged for this shape
+        (None, Some(_)) => want_idents = got.idents.clone(),
+        _ => {}
+    }
+    if got.idents != want_idents {
+        return Err(format!("shape {:?} where {:?} is expected", got.idents, want_idents));
+    }
+    let want_numbers: Vec<i64> = template
+        .numbers
+        .iter()
+        .map(|s| match s {
+            Slot::Const(n) => *n,
+            Slot::Arg(k) => numbers.get(*k).copied().unwrap_or(i64::MIN),
+        })
+        .collect();
+    // Every argument value must show up (a rendering that hides one cannot be judged)
+    let all_shown = (0..numbers.len()).all(|k| template.numbers.iter().any(|s| matches!(s, Slot::Arg(a) if *a == k)));
+    if all_shown && got.numbers != want_numbers {
+        return Err(format!("values {:?} where {:?} are expected", got.numbers, want_numbers));
+    }
+    let want_strings: Vec<String> = template
+        .strings
+        .iter()
+        .map(|s| match s {
+            Slot::Const(t) => t.clone(),
+            Slot::Arg(k) => strings.get(*k).cloned().unwrap_or_default(),
+        })
+        .collect();
+    let all_shown = (0..strings.len()).all(|k| template.strings.iter().any(|s| matches!(s, Slot::Arg(a) if *a == k)));
+    if all_shown && got.strings != want_strings {
+        return Err(format!("texts {:?} where {:?} are expected", got.strings, want_strings));
+    }
+    Ok(())
 }
 
 // ---------------------------------------------------------------------------------------------
@@ -927,15 +1116,23 @@ pub fn check_session(cap: &Capture, scn: &DebugScenario, report: &mut Report) ->
             (Some(Event::Cmd(text)), false) => {
                 ei += 1;
                 cmds_consumed += 1;
-                let got = debug_atoms(text);
-                let want = expected_atoms(&item.cmd);
-                if got != want && !is_implicit {
-                    push(
-                        &mut out,
-                        "C14",
-                        format!("C14/parse/{}", item.cmd.kind_name()),
-                        format!("`{}` parsed as {} (expected {:?})", item.render(), text, want),
-                    );
+                // The rendering of the parsed command, judged against how this very tree
+                // renders that command shape (learned by a calibration session)
+                match vocabulary(cap) {
+                    Some(vocab) => {
+                        report.hit("probe:command_rendering_calibrated");
+                        if let Some(template) = vocab.get(&shape_key(&item.cmd)) {
+                            if let (Err(what), false) = (rendering_agrees(template, &item.cmd, text), is_implicit) {
+                                push(
+                                    &mut out,
+                                    "C14",
+                                    format!("C14/parse/{}", item.cmd.kind_name()),
+                                    format!("`{}` parsed as {}: {}", item.render(), text, what),
+                                );
+                            }
+                        }
+                    }
+                    None => report.hit("probe:command_rendering_not_calibrated"),
                 }
             }
             (other, _) => {
